@@ -388,7 +388,10 @@ def inline_helpers(tree: ast.Module) -> ast.Module:
             refs[x.id] += 1
         elif isinstance(x, ast.Attribute) and x.attr in refs:
             refs[x.attr] += 1
-    single = {k: f for k, f in cands.items() if refs[k[1]] == 1 and sum(1 for kk in cands if kk[1] == k[1]) == 1}
+    def small(f):
+        # (no try / loops: helpers built around them are idioms the engines read at the function boundary)
+        return sum(1 for x in ast.walk(f) if isinstance(x, ast.stmt)) <= 12 and not any(isinstance(x, (ast.Try, ast.For, ast.While)) for x in ast.walk(f))
+    single = {k: f for k, f in cands.items() if (refs[k[1]] == 1 or (2 <= refs[k[1]] <= 3 and small(f))) and sum(1 for kk in cands if kk[1] == k[1]) == 1}
     # expression helpers (`def h(a, b): return <expr>`) are substituted at every call site, wherever it is
     exprh = {k: f for k, f in cands.items() if k not in single and len(_body(f)) == 1 and isinstance(_body(f)[0], ast.Return) and _body(f)[0].value is not None
              and sum(1 for kk in cands if kk[1] == k[1]) == 1 and 1 <= refs[k[1]] <= 6}
@@ -610,8 +613,12 @@ def inline_helpers(tree: ast.Module) -> ast.Module:
                 # a, b = helper(...) where the helper ends in `return x, y` of already computed locals: a = x ; b = y
                 rets_ = [r_ for r_ in ast.walk(defs[nm][1]) if isinstance(r_, ast.Return)]
                 tg = st.targets[0]
-                if len(rets_) == 1 and isinstance(rets_[0].value, ast.Tuple) and len(rets_[0].value.elts) == len(tg.elts) \
-                        and all(isinstance(e_, ast.Name) for e_ in rets_[0].value.elts) and not any(isinstance(e_, ast.Starred) for e_ in tg.elts):
+                tnames = {x.id for x in tg.elts if isinstance(x, ast.Name)}          # names REBOUND by the assignment (item stores rebind nothing)
+                if rets_ and all(isinstance(r_.value, ast.Tuple) and len(r_.value.elts) == len(tg.elts)
+                                 and not any(isinstance(e_, ast.Starred) for e_ in r_.value.elts) for r_ in rets_) \
+                        and not any(isinstance(e_, ast.Starred) for e_ in tg.elts) \
+                        and not any(isinstance(a_, ast.Name) and a_.id in tnames for a_ in list(st.value.args) + [k_.value for k_ in st.value.keywords]):
+                    # (callee locals are renamed with a suffix, so only caller names passed as arguments could clash with the targets)
                     def mk(r, tg=tg):
                         return [ast.copy_location(ast.Assign(targets=[t_], value=v_, lineno=r.lineno), r) for t_, v_ in zip(tg.elts, r.value.elts)]
                     new = expand_call(st.value, nm, mk, set())
@@ -669,6 +676,7 @@ def inline_helpers(tree: ast.Module) -> ast.Module:
     def visit_funcs(nodes):
         for n in nodes:
             if isinstance(n, ast.FunctionDef):
+                counter[0] = 0          # generated names are numbered per host function (sibling functions get the same names)
                 n.body = process_block(n.body, n)
                 visit_funcs([x for x in n.body if isinstance(x, (ast.FunctionDef, ast.ClassDef))])
             elif isinstance(n, ast.ClassDef):
